@@ -643,6 +643,11 @@ htp_status_t htp_mpart_part_handle_data(htp_multipart_part_t *part, const unsign
                 if (data[len - 1] == LF) len--;
             }
 
+            // A line combined from pieces must lose its line ending, too.
+            if (line != NULL) {
+                bstr_adjust_len(line, len);
+            }
+
             // Is it an empty line?
             if (len == 0) {
                 // Empty line; process headers and switch to data mode.
